@@ -40,6 +40,25 @@ def finish(sid, kind='buf', n=0, status=200, hdrs_=None, chunk=0, eof=0):
 
 # ------------------------------------------------------------------ extra generators
 
+def gen_bighdr_queue(ctx, thorough):
+    """A response header block that needs CONTINUATION frames is queued while the writer queue is full and the read
+    loop (PING acks) competes for every slot that frees up: the block has to stay one piece."""
+    out = []
+    for k, n in enumerate((40000,) if not thorough else (17000, 40000, 70000, 130000)):
+        for npings, cap in ((600, 64), (1300, 8192), (1000, 1024)):
+            # the acks fill the writer queue and the read loop parks with the next one; the responses queue up behind it
+            pool = [{"op": "ping", "n": i} for i in range(npings)]
+            sids = [1 + 2 * i for i in range(8)]
+            steps = []
+            for sid in sids:
+                steps += req(sid)
+            steps += [{"op": "stopread"}, {"op": "burst", "steps": pool}, {"op": "wait", "ms": 100}]
+            steps += [{"op": "burst", "steps": [finish(sid, n=5, hdrs_=[["x-fill", "XYZ"[sid % 3] * n]]) for sid in sids]}]
+            steps += [{"op": "wait", "ms": 100}, {"op": "resumeread"}, {"op": "settle"}] + req(17) + [finish(17, n=1)]
+            out.append({'tag': 'bighdr-queue', 'cfg': {'maxConc': 10, 'outCap': cap}, 'steps': steps})
+    return out
+
+
 def gen_c01_extra(ctx, thorough):
     """What the model abstracts: every split offset of real header blocks, padding/priority, empty DATA,
     DATA chunkings, response shapes x sizes around one frame and above the window, interleavings."""
@@ -133,7 +152,7 @@ def gen_c01_extra(ctx, thorough):
             for sid in perm:
                 steps.append(finish(sid, kind=rng.choice(['buf', 'stream', 'streamcl']), n=rng.choice([0, 7, 20000]), hdrs_=[["x-sid-echo", str(sid)]]))
         out.append({'tag': 'interleave', 'cfg': {'maxConc': 4}, 'steps': steps})
-    return out
+    return out + gen_bighdr_queue(ctx, thorough)
 
 
 def gen_c06_extra(ctx, thorough):
@@ -193,6 +212,15 @@ def gen_c06_extra(ctx, thorough):
             steps += [finish(sid, n=rng.choice([30000, 40000, 66000]), kind=rng.choice(['buf', 'stream'])) for sid in order]
             steps += [{"op": "wu", "sid": 0, "inc": 2000000}]
             out.append({'tag': 'release-conn', 'cfg': {'maxConc': 10}, 'steps': steps})
+            # ... the same, the releasing WINDOW_UPDATE written back to back with other frames the stream loop has to look
+            # at (a new request, PRIORITY, a late RST_STREAM, a stream WINDOW_UPDATE): they wait in its queue behind it
+            nsid = 2 * k + 1
+            behind = [{"op": "prio", "sid": nsid + 2, "prio": {"dep": 0, "excl": False, "weight": 1}}, {"op": "wu", "sid": sids[0], "inc": 5},
+                      {"op": "prio", "sid": nsid + 4, "prio": {"dep": 0, "excl": False, "weight": 9}}] + req(nsid) + \
+                     [{"op": "prio", "sid": nsid + 6, "prio": {"dep": 0, "excl": False, "weight": 3}} for _ in range(rng.choice([0, 5, 30]))]
+            rng.shuffle(behind)
+            steps = steps[:-1] + [{"op": "burst", "steps": [{"op": "wu", "sid": 0, "inc": 2000000}] + behind}, finish(nsid, n=3)]
+            out.append({'tag': 'release-conn-behind', 'cfg': {'maxConc': 10}, 'steps': steps})
             steps = [{"op": "settings", "pairs": [[4, 1000]]}]
             for sid in sids:
                 steps += req(sid)
@@ -298,6 +326,14 @@ def gen_c10_extra(ctx, thorough):
         out.append({'tag': 'trailsl-noread-' + name, 'cfg': {'maxConc': 4, 'outCap': 8192}, 'steps': steps})
         steps = req(5) + [{"op": "stopread"}, off, {"op": "burst", "steps": burst}, {"op": "settle"}, {"op": "expectreturn", "ms": 3000}]
         out.append({'tag': 'trail-noread-' + name, 'cfg': {'maxConc': 4, 'outCap': 4096}, 'steps': steps})
+    # two GOAWAY senders at once: the stream loop (DATA on an idle stream) is held inside each step of writeGoAway while
+    # the read loop finds an offence of its own (WINDOW_UPDATE(0, 0)); whatever the second one announces, it is not
+    # below a request that runs, and not above what the first announced
+    for ev, val in (('ga.flag', 0), ('ga.read', 3), ('ga.sent', 3)):
+        for second in ({"op": "wu", "sid": 0, "inc": 0}, {"op": "raw", "ty": 6, "fl": 0, "sid": 0, "payload": [1, 2, 3]}):
+            steps = req(1) + req(3) + [{"op": "hold", "ev": ev, "sid": val}, {"op": "data", "sid": 9, "n": 3, "es": False, "pad": -1}, second,
+                                      {"op": "wait", "ms": 50}, {"op": "slrelease"}, finish(1, n=2), finish(3, n=2), {"op": "expectreturn", "ms": 3000}]
+            out.append({'tag': 'ga-two-senders', 'cfg': {'maxConc': 4}, 'steps': steps})
     return out
 
 
